@@ -346,6 +346,21 @@ def gen_chain(g, filters=0.0, roots=0.0, doc=None, small=False):
                             a = got[0][1]
                             return [a == fv, a != fv, a < fv, a <= fv, a > fv, a >= fv][oc]
                         return '@' + it + ['==', '!=', '<', '<=', '>', '>='][oc] + '$' + jt, ('cr', isp, oc, jsp), tr
+                    if k0 < 0.1:
+                        # a regular-expression test on a single-valued operand (patterns in the common subset of RE2 and Python, ASCII strings)
+                        for _t in range(12):
+                            it, isp = gen_inner(r, r.choice(kids) if kids else None)
+                            if all(st[0] not in (2, 3, 4) for st in isp) and (_t >= 8 or any(x[0] == 's' for k1 in kids for x in inner_reach(isp, [k1])[:1])):
+                                break
+                        else:
+                            it, isp = '', []
+                        pat = r.choice(['a', '^a', 'b$', '.', 'x', '^$', '1', '^ab$', 'a|b', '[a-c]', '\\d', 'a b', 'b?c', '(?i)x', '^[^a]', 'y|^$'])
+                        rx = re.compile(pat.encode('ascii'))
+
+                        def tx(x, isp=isp, rx=rx):
+                            got = inner_reach(isp, [x])
+                            return bool(got) and got[0][0] == 's' and rx.search(got[0][1]) is not None
+                        return '@' + it + '=~/' + pat + '/', ('x', isp, [ord(ch) for ch in pat]), tx
                     if k0 < 0.4:
                         for _t in range(6):
                             it, isp = gen_inner(r, r.choice(kids) if kids else None)
